@@ -19,6 +19,13 @@ type vStaking struct {
 	dels    []stakingtypes.Delegation
 	maxVals uint32
 	bonded  math.Int
+	// ledger side effects
+	delegated     math.Int
+	nDelegate     int
+	lastSrc       stakingtypes.BondStatus
+	lastSubtract  bool
+	lastDelegator string
+	unbondingTime int64
 }
 
 type vValSet struct {
@@ -77,3 +84,14 @@ func (s *vStaking) IterateDelegatorDelegations(ctx context.Context, delegator sd
 }
 
 func (s *vStaking) TotalBondedTokens(context.Context) (math.Int, error) { return s.bonded, nil }
+
+// Delegate (subtractAccount=false): the caller has already moved / will move the coins between pools; the staking
+// ledger credits the validator. Recorded for the pool-vs-ledger comparison.
+func (s *vStaking) Delegate(ctx context.Context, delAddr sdk.AccAddress, bondAmt math.Int, tokenSrc stakingtypes.BondStatus, validator stakingtypes.Validator, subtractAccount bool) (math.LegacyDec, error) {
+	s.delegated = s.delegated.Add(bondAmt)
+	s.nDelegate++
+	s.lastSrc = tokenSrc
+	s.lastSubtract = subtractAccount
+	s.lastDelegator = string(delAddr)
+	return math.LegacyNewDecFromInt(bondAmt), nil
+}
